@@ -69,6 +69,8 @@ def gen(rng, tier, index):
     kw = {}
     if rng.random() < 0.7:
         kw["initialize"] = int(rng.integers(n))
+        if rng.random() < 0.2:
+            kw["initialize"] -= n  # the same sample, counted from the end
     else:
         kw["initialize"] = "random"
         kw["random_state"] = int(rng.integers(1000))
@@ -100,6 +102,7 @@ def gen(rng, tier, index):
         s_["xform"] = gens.pick(rng, forms.PRESENT)
         s_["carry"] = gens.pick(rng, forms.CARRY)
         s_["clobber"] = bool(rng.random() < 0.5)
+        s_["reject"] = bool(rng.random() < 0.5)
         # a score threshold that is never reached changes nothing (the docstring's own example sets 1e-12)
         s_["threshold"] = gens.pick(rng, (None, None, ("relative", 1e-12), ("relative", 1e-9), ("absolute", 0.0))) if kind not in ("dup_rows", "lattice") else None  # (on duplicated points an exhausted search does reach it)
     past = None
@@ -139,6 +142,10 @@ def _fit_voronoi(case, setting, j):
     if setting.get("clock") and setting["clock"] != "real":
         clock = rt.ScriptedClock(setting["clock"], np.random.default_rng(setting["clock_seed"]), est=est, target=setting.get("target"))
     for li, nts in enumerate(case["chain"]):
+        if li > 0 and setting.get("reject") and int(getattr(est, "n_selected_", 0)) >= 2:
+            # a failure in the history: a warm start asking for fewer selections than were made is refused, then corrected
+            est.n_to_select = int(est.n_selected_) - 1
+            forms.rejected(j, "shrinking warm start", sel.fit, est, X, None, spec, warm=True)
         if li > 0 and setting.get("carry", "same") != "same":
             # the chain continues on a deep copy / an unpickled copy of the fitted object
             tr.detach()
